@@ -33,7 +33,7 @@ chk("C07", "fault_enumeration",
     "deterministic simulation: systematic error-point enumeration (cut / token corruption at every token) and seeded API histories with conservation invariants", "7/C07")
 
 chk("C02", "exploration",
-    "Seeded search: a rendered valid text under a random schema is damaged by storage faults (cut, byte flips 0..255, duplicated/zeroed/deleted blocks, spliced meta tokens, tail garbage) and delivered by every route (buffer, chunked stream, file, include); one run in 16 is a stress shape (10^5 nested unknown / known sections, 1 MiB tokens, 10^5 list elements, every unterminated construct, directory/empty/unreadable/missing/self-including targets as path and include target - absolute, through a search directory written with or without a trailing slash, and as ~ / ~user names that expand to a directory -, hostile option-name paths); section names include "root"; half of the plans re-use the FILE objects of closed streams (address reuse). Monitored in every run: ASan+UBSan, the exit/abort/assert seams, bytes on stdout, bytes taken from standard input (a scanner that lost its input falls back to stdin), allocation/read/callback step budgets (termination), return code; afterwards the context is printed, parsed into again and freed, and a fresh context must parse a probe exactly as in a fresh process image.",
+    "Seeded search: a rendered valid text under a random schema is damaged by storage faults (cut, byte flips 0..255, duplicated/zeroed/deleted blocks, spliced meta tokens, tail garbage) and delivered by every route (buffer, chunked stream, file, include); one run in 16 is a stress shape (10^5 nested unknown / known sections, 1 MiB tokens, 10^5 list elements, every unterminated construct, directory/empty/unreadable/missing/self-including targets as path and include target - absolute, through a search directory written with or without a trailing slash, and as ~ / ~user names that expand to a directory -, hostile option-name paths); section names include the name root; half of the plans re-use the FILE objects of closed streams (address reuse). Monitored in every run: ASan+UBSan, the exit/abort/assert seams, bytes on stdout, bytes taken from standard input (a scanner that lost its input falls back to stdin), allocation/read/callback step budgets (termination), return code; afterwards the context is printed, parsed into again and freed, and a fresh context must parse a probe exactly as in a fresh process image.",
     "Sampling over an unbounded input space; damage is seeded, not coverage-guided. Mid-stream read errors other than EISDIR are not injected (no property covers them). Uninitialised reads are observed only through ASan/UBSan and the fill byte.",
     "deterministic simulation: seeded storage-fault injection on input sources over all delivery routes, with death/stdout/budget monitors and recovery probe", "7/C02")
 
